@@ -306,14 +306,35 @@ def check_labels(case, ctx):
             classes.add("expanding-in")
         if any(it[0] == "cast" for it in c["items"]):
             classes.add("cast-item")
-        ctx.note(case, nontrivial or bool(nb_classes), classes=classes)
+        for r in info["rep"]:
+            classes.add("repeat:" + r["form"])
+            classes.add("repeat>=3" if r["count"] >= 3 else "repeat=2")
+            if r["lead"]:
+                classes.add("repeat:after-same-named-column-of-other-from")
+                if r["count"] >= 3 and r["form"] != "anon" and not r["interleaved"]:
+                    classes.add("repeat:second-level-dedupe-x3")
+            if r["interleaved"]:
+                classes.add("repeat:interleaved")
+        ctx.note(case, nontrivial or bool(nb_classes) or any(r["count"] >= 3 for r in info["rep"]), classes=classes)
 
         if not (comps[0] == comps[1] == comps[2]):
             raise Violation("C21/labels/non-deterministic-compile", "three compilations of the same statement differ", observed=[x[0][:400] for x in comps])
         if len(keys) != len(expected):
             raise HarnessError(f"result columns {len(keys)} != items {len(expected)}")
         # (a) result column names pairwise distinct
-        dup = {k for k in keys if keys.count(k) > 1}
+        # (one Label object selected several times keeps its single name by design; generated de-duplication labels of repeated
+        # columns / casts must be "unique within the single columns clause" (selectable.py); LABEL_STYLE_NONE does not disambiguate)
+        style_none = c.get("style") == "none"
+        lg = info["label_groups"]
+        dup = set()
+        for k in set(keys):
+            pos = [i for i, kk in enumerate(keys) if kk == k]
+            if len(pos) > 1 and not (all(i in lg for i in pos) and len({lg[i] for i in pos}) == 1):
+                dup.add(k)
+        tolerated = {k for k in keys if keys.count(k) > 1} - dup
+        if style_none:
+            tolerated |= dup
+            dup = set()
         if dup:
             real_clash = [k for k in dup if k in info["real"] or k in info["explicit"]]
             sig = "C21/labels/generated-label-collides-with-real-name" if real_clash else "C21/labels/duplicate-result-column-name"
@@ -366,6 +387,10 @@ def check_labels(case, ctx):
         sel_keys = [str(k) for k in stmt.selected_columns.keys()]
         shadowed = {k for i, k in enumerate(keys) if any(sk == k and j != i for j, sk in enumerate(sel_keys))}
         for i, (k, ev) in enumerate(zip(keys, expected)):
+            if k in tolerated or style_none:
+                if row[i] != ev:
+                    raise Violation("C21/labels/wrong-value-at-position", f"position {i} ({k}): {row[i]!r} != {ev!r}", observed=row[i], expected=ev)
+                continue
             if k in shadowed and not c.get("pinned"):
                 ctx.exclude("label equals the select-level proxy key of another column (known finding: string lookup returns the other column)")
                 continue
@@ -373,6 +398,12 @@ def check_labels(case, ctx):
                 raise Violation("C21/labels/wrong-value-at-position", f"position {i} ({k}): {row[i]!r} != {ev!r}", observed=row[i], expected=ev)
             try:
                 v = row._mapping[k]
+            except exc.InvalidRequestError as e:
+                if info["rep"] and "Ambiguous column name" in str(e):
+                    # one column selected several times in several guises: a loud ambiguity error for a string key is accepted
+                    ctx.info("ambiguous string lookup among repeated elements (loud)")
+                    continue
+                raise Violation("C21/labels/value-not-retrievable-by-label", f"row._mapping[{k!r}] raised {type(e).__name__}: {e}", observed=str(e)[:300], expected=ev)
             except exc.SQLAlchemyError as e:
                 raise Violation("C21/labels/value-not-retrievable-by-label", f"row._mapping[{k!r}] raised {type(e).__name__}: {e}", observed=str(e)[:300], expected=ev)
             if v != ev and k in shadowed:
@@ -480,6 +511,9 @@ def _label_cases(draw):
     nitems = draw(st.sampled_from([5, 8, 12, 20, 35, 60]))
     for _ in range(nitems):
         k = draw(st.sampled_from(["col", "col", "col_anon", "col_anon", "col_lbl", "expr", "expr", "expr_lbl", "lit", "lit", "bind", "cast"]))
+        if draw(st.integers(0, 7)) == 0:
+            items.append(["rep", draw(st.integers(0, 2)), draw(st.integers(0, 3)), draw(st.integers(0, 5)), draw(st.integers(0, 3)), draw(st.integers(0, 3))])
+            continue
         if k == "cast":
             items.append([k, draw(st.integers(0, 3)), draw(st.integers(0, 5)), draw(st.integers(1, 2))])
             continue
@@ -497,7 +531,7 @@ def _label_cases(draw):
             items.append([k, draw(st.sampled_from([2, 30, 100])), draw(st.integers(0, 255))])
     where = [[draw(st.integers(0, 3)), draw(st.integers(0, 5)), int(draw(st.integers(0, 3)) == 0)] for _ in range(draw(st.integers(0, 8)))]
     nbind = [draw(st.integers(0, 20)), draw(st.integers(0, 5)), int(draw(st.integers(0, 2)) == 0)] if draw(st.integers(0, 2)) == 0 else None
-    return {"dialect": 3, "maxlen": 0, "label_length": ll, "style": draw(st.sampled_from(["default", "tq", "tq"])), "tables": tables, "froms": froms, "items": items, "where": where, "nbind": nbind}
+    return {"dialect": 3, "maxlen": 0, "label_length": ll, "style": draw(st.sampled_from(["default", "default", "tq", "tq", "none"])), "tables": tables, "froms": froms, "items": items, "where": where, "nbind": nbind}
 
 
 # ----------------------------------------------------------------------------- cross-process determinism
